@@ -294,6 +294,24 @@ func c10Gen(r *Rng, n int) []string {
 			m = map[string]interface{}{k1: outer, "k0": "x"}
 			nestedPath = k1 + "." + k2 + "." + k3
 		}
+		if r.P(5) {
+			// XML shape: the key holds a simple element with attributes (text entry + attribute entries
+			// only), or a list of such; replacing it replaces the whole entry
+			el := func(t string) interface{} {
+				e := map[string]interface{}{"#text": t, "-id": r.Pick([]string{"7", "8"})}
+				if r.Bool() {
+					e["-lang"] = "en"
+				}
+				return e
+			}
+			var iv interface{} = el("old")
+			if r.Bool() {
+				iv = []interface{}{el("one"), el("two")}
+			}
+			m = map[string]interface{}{"doc": map[string]interface{}{"item": iv, "k": "x"}}
+			nestedPath = "doc.item"
+			nested = true
+		}
 		shelf := false
 		if r.P(5) {
 			// the path ends in the key, the key holds a LIST, and the sub-keys select several of
